@@ -46,7 +46,15 @@ PARTIAL = ['C12_comments_kept_covered_partial: presence of every kept comment is
            'math mode; for ALL four math modes when formulas and equation environments (those rendered from their source) are '
            'identical - comments inside any other environment remain free (C12_relational2 refines C12_relational: the '
            'source slice of an environment matters only for equation environments). Partial only in that the extended '
-           'grammar is not the whole of LaTeX (see notes/C02.md)']
+           'grammar is not the whole of LaTeX (see notes/C02.md)',
+           'C12_source_level3_partial, C12_source_level3_all_modes_partial (composed with C02_parse_unparse3_partial, '
+           'Proofs/Compose3Comments.v; tree level, EVERY context: C12_trees_same_but_comments3): the same over the THIRD '
+           'document grammar - the extended grammar (C12_same_but_comments2_embeds: the grammar-2 theorems are instances) plus '
+           'a paragraph break as the single-token argument of a call (PArg3), delimited groups written directly in the body '
+           'of a delimited argument (BGrp3: text, COMMENTS and nested groups - the texts of those comments are free too) and, '
+           'at tree level only, whitespace runs with two or more newlines in a context without the paragraph specials (WPar3; '
+           'the default context has these specials, so no document with such a run satisfies ok_doc3 there). Partial only '
+           'in that the third grammar is not the whole of LaTeX (see notes/C02.md)']
 REFUTED = ['"with keep_comments every comment appears" is false for a comment written between a macro and its argument (C12_comments_kept_not_covered_witness, row \\textbf%c{x}; known finding kept-comment-missing:before-argument)']
 CASE_TIMEOUT = 10.0
 
